@@ -971,7 +971,21 @@ impl Session {
     }
 
     /// Write buffer to connection with padding applied
-    async fn write_with_padding(&self, mut buffer: BytesMut) -> Result<()> {
+    async fn write_with_padding(&self, buffer: BytesMut) -> Result<()> {
+        // The writer guard lives inside write_with_padding_locked: it is released before
+        // handle_io_error closes the session, because close() takes the writer itself.
+        match self.write_with_padding_locked(buffer).await {
+            Ok(()) => Ok(()),
+            Err((context, e)) => Err(self.handle_io_error(context, e).await),
+        }
+    }
+
+    /// The part of write_with_padding that runs under the writer lock. A transport error is
+    /// returned with the name of the step that failed.
+    async fn write_with_padding_locked(
+        &self,
+        mut buffer: BytesMut,
+    ) -> std::result::Result<(), (&'static str, std::io::Error)> {
         use crate::padding::CHECK_MARK;
         use crate::protocol::HEADER_OVERHEAD_SIZE;
 
@@ -985,12 +999,12 @@ impl Session {
             crate::verif::point("wp.lock").await;
             let mut writer = self.writer.lock().await;
             if let Err(e) = writer.write_all(&buffer).await {
-                return Err(self.handle_io_error("write_without_padding", e).await);
+                return Err(("write_without_padding", e));
             }
             #[cfg(anytls_verif)]
             crate::verif::point("wp.flush").await;
             if let Err(e) = writer.flush().await {
-                return Err(self.handle_io_error("flush_without_padding", e).await);
+                return Err(("flush_without_padding", e));
             }
             tracing::info!(
                 "[Session] write_with_padding: Successfully wrote {} bytes to connection",
@@ -1022,12 +1036,12 @@ impl Session {
             crate::verif::point("wp.lock").await;
             let mut writer = self.writer.lock().await;
             if let Err(e) = writer.write_all(&buffer).await {
-                return Err(self.handle_io_error("write_no_padding_stop", e).await);
+                return Err(("write_no_padding_stop", e));
             }
             #[cfg(anytls_verif)]
             crate::verif::point("wp.flush").await;
             if let Err(e) = writer.flush().await {
-                return Err(self.handle_io_error("flush_no_padding_stop", e).await);
+                return Err(("flush_no_padding_stop", e));
             }
             return Ok(());
         }
@@ -1041,12 +1055,12 @@ impl Session {
             crate::verif::point("wp.lock").await;
             let mut writer = self.writer.lock().await;
             if let Err(e) = writer.write_all(&buffer).await {
-                return Err(self.handle_io_error("write_no_padding_sizes", e).await);
+                return Err(("write_no_padding_sizes", e));
             }
             #[cfg(anytls_verif)]
             crate::verif::point("wp.flush").await;
             if let Err(e) = writer.flush().await {
-                return Err(self.handle_io_error("flush_no_padding_sizes", e).await);
+                return Err(("flush_no_padding_sizes", e));
             }
             return Ok(());
         }
@@ -1091,7 +1105,7 @@ impl Session {
                     );
                 }
                 if let Err(e) = writer.write_all(&buffer[..size]).await {
-                    return Err(self.handle_io_error("write_padding_split_payload", e).await);
+                    return Err(("write_padding_split_payload", e));
                 }
                 buffer = buffer.split_off(size);
             } else if remain_payload_len > 0 {
@@ -1104,7 +1118,7 @@ impl Session {
                 }
 
                 if let Err(e) = writer.write_all(&buffer).await {
-                    return Err(self.handle_io_error("write_padding_payload_frame", e).await);
+                    return Err(("write_padding_payload_frame", e));
                 }
                 buffer.clear();
             } else {
@@ -1113,7 +1127,7 @@ impl Session {
                 put_waste_frames(&mut padding_frame, HEADER_OVERHEAD_SIZE + size);
 
                 if let Err(e) = writer.write_all(&padding_frame).await {
-                    return Err(self.handle_io_error("write_padding_frame_only", e).await);
+                    return Err(("write_padding_frame_only", e));
                 }
             }
         }
@@ -1125,7 +1139,7 @@ impl Session {
                 buffer.len()
             );
             if let Err(e) = writer.write_all(&buffer).await {
-                return Err(self.handle_io_error("write_remaining_payload", e).await);
+                return Err(("write_remaining_payload", e));
             }
         }
 
@@ -1133,7 +1147,7 @@ impl Session {
         crate::verif::point("wp.flush").await;
         tracing::trace!("[Session] write_with_padding: Flushing writer");
         if let Err(e) = writer.flush().await {
-            return Err(self.handle_io_error("flush_with_padding", e).await);
+            return Err(("flush_with_padding", e));
         }
         tracing::debug!("[Session] write_with_padding: Successfully wrote and flushed data");
         Ok(())
